@@ -149,6 +149,8 @@ class Element:
                 dims = equation.resolve_dimensions()
                 if(dims != -1):  # It is an arrayed equation
                     arrayed_equation = True
+                    # the sub-elements are rebuilt from the new equation: forget those of an earlier one
+                    self._reset_arrayed()
                     if len(dims) < 2 or dims[1] == 0:
                         # Copy equations with relevant indices
                         if(equation.is_named()):
@@ -171,6 +173,16 @@ class Element:
 
         return arrayed_equation
 
+
+    def _reset_arrayed(self):
+        """
+            Forgets the sub-elements (and index names) an earlier arrayed equation left on this element and on its rows.
+        """
+        for name in list(self._elements.equations):
+            self._elements[name]._reset_arrayed()
+        self._elements = ArrayedEquation(self)
+        self.arrayed = False
+        self.named_arrayed = False
 
     @equation.setter
     def equation(self, equation):
